@@ -212,6 +212,13 @@ def _builtin(ex, st, c, callee, args, fn):
             return Enum(z3.If(o == 0, args[1].disc(), o), {})
         return {'is_lt': o == -1, 'is_le': o != 1, 'is_gt': o == 1, 'is_ge': o != -1, 'is_eq': o == 0, 'is_ne': o != 0}[k]
     # ---------------------------------------------------------------- floats
+    m = re.fullmatch(r'(?:(?:std|core)::intrinsics::)?(ceil|floor|round|trunc|fabs)f(32|64)', c)
+    if m and len(args) == 1:
+        # the intrinsics the float methods lower to in optimised MIR
+        return ex.float_round_fn(args[0], 'abs' if m.group(1) == 'fabs' else m.group(1))
+    m = re.search(r'(?:^|::)f32::<impl f32>::(\w+)$', c) or re.match(r'^f32::(\w+)$', c)
+    if m and m.group(1) in ('ceil', 'floor', 'round', 'trunc', 'abs') and len(args) == 1:
+        return ex.float_round_fn(args[0], m.group(1))
     m = re.search(r'(?:^|::)f64::<impl f64>::(\w+)$', c) or re.match(r'^f64::(\w+)$', c)
     if m:
         k = m.group(1)
@@ -343,9 +350,25 @@ def _builtin(ex, st, c, callee, args, fn):
             if r is not None and isinstance(r[1], z3.ExprRef) and z3.is_bool(r[1]):
                 return Enum(z3.If(z3.And(d == 1, r[1]), z3.IntVal(1), z3.IntVal(0)), {'Some': v.p['Some'], 'None': UNIT})
         if k == 'map' and len(args) == 2 and 'Some' in v.p:
-            r = call_closure(ex, st.fork(), callee, args[1], [v.p['Some'].f[0]])
+            s_some = st.fork()
+            r = call_closure(ex, s_some, callee, args[1], [v.p['Some'].f[0]])
             if r is not None:
-                return Enum(v.d, {'Some': Struct([r[1]]), 'None': UNIT})
+                s2 = r[0]
+                if len(s2.trace) == len(st.trace) and len(s2.pc) == len(st.pc):
+                    return Enum(v.d, {'Some': Struct([r[1]]), 'None': UNIT})
+                # the closure has effects (environment events) or constrains the path: it runs only when the option is Some
+                if isinstance(v.d, int):
+                    st.mem, st.pc, st.trace, st.visits = s2.mem, s2.pc, s2.trace, s2.visits
+                    return Enum(v.d, {'Some': Struct([r[1]]), 'None': UNIT})
+                s2.pc.append(d == 1)
+                st.pc.append(d == 0)
+                return [(st, NONE), (s2, Enum(1, {'Some': Struct([r[1]]), 'None': UNIT}))]
+        if k in ('as_ref', 'as_mut') and len(args) == 1 and isinstance(args[0], Ref):
+            r0 = args[0]
+            pl = {'None': UNIT}
+            if 'Some' in v.p:
+                pl['Some'] = Struct([Ref(r0.frame, r0.local, tuple(r0.path) + (('as', 'Some'), 0))])
+            return Enum(v.d, pl)
         if k == 'unwrap_or_else' and len(args) == 2:
             r = call_closure(ex, st.fork(), callee, args[1], [])
             if r is not None:
@@ -490,6 +513,68 @@ def _builtin(ex, st, c, callee, args, fn):
                 return ns % NSv
             if k in ('as_nanos', 'as_millis', 'as_micros'):
                 return ns / {'as_nanos': 1, 'as_millis': 10 ** 6, 'as_micros': 1000}[k]
+    if re.search(r'(^|::)SystemTimeError::duration$', c) and args:
+        # SystemTimeError(Duration): how far the other instant lies ahead
+        v = _val(ex, st, args[0])
+        if isinstance(v, Struct) and len(v.f) == 1 and isinstance(v.f[0], Struct):
+            return v.f[0]
+    m = re.search(r'(^|::)NonZero(?:[IU]\w+)?::(new|get|new_unchecked)$', c)
+    if m and len(args) == 1:
+        k = m.group(2)
+        if k == 'new' and isinstance(args[0], z3.ExprRef):
+            return Enum(z3.If(args[0] != 0, z3.IntVal(1), z3.IntVal(0)), {'Some': Struct([Struct([args[0]])]), 'None': UNIT})
+        if k == 'new_unchecked' and isinstance(args[0], z3.ExprRef):
+            ex.obligations.append(Obligation(z3.And(st.pcond(), args[0] == 0), 'NonZero::new_unchecked(0) (undefined behaviour)', fn.name))
+            return Struct([args[0]])
+        if k == 'get':
+            v = _val(ex, st, args[0])
+            if isinstance(v, Struct) and len(v.f) == 1:
+                return v.f[0]
+    # pure Duration arithmetic / comparisons (exact integer nanoseconds)
+    m = (re.search(r'(^|::)Duration::(saturating_sub|saturating_add|checked_add|checked_sub|subsec_micros|subsec_millis|is_zero|abs_diff)$', c)
+         or re.search(r'^<(?:std::time::)?Duration as (?:Ord|PartialOrd|PartialEq)>::(max|min|clamp|gt|ge|lt|le|eq|ne)$', c)
+         or re.search(r'^<(?:std::time::)?Duration as (?:Add|Sub)(?:<(?:std::time::)?Duration>)?>::(add|sub)$|^<(?:std::time::)?Duration as (?:Mul|Div)<u32>>::(mul|div)$', c))
+    if m and args:
+        k = [g for g in m.groups() if g and not g.startswith(':') and g != ''][-1]
+        DMAX = (2 ** 64 - 1) * 10 ** 9 + 999_999_999
+        vs = [_val(ex, st, a) for a in args]
+        ns = [v.f[0] if isinstance(v, Struct) and len(v.f) == 1 else v for v in vs]
+        if all(isinstance(x, z3.ExprRef) for x in ns):
+            x = ns[0]; y = ns[1] if len(ns) > 1 else None
+            if k == 'is_zero':
+                return x == 0
+            if k == 'subsec_micros':
+                return (x % 10 ** 9) / 1000
+            if k == 'subsec_millis':
+                return (x % 10 ** 9) / 10 ** 6
+            if k in ('gt', 'ge', 'lt', 'le', 'eq', 'ne'):
+                return {'gt': x > y, 'ge': x >= y, 'lt': x < y, 'le': x <= y, 'eq': x == y, 'ne': x != y}[k]
+            if k == 'max':
+                return Struct([z3.If(x >= y, x, y)])
+            if k == 'min':
+                return Struct([z3.If(x <= y, x, y)])
+            if k == 'clamp' and len(ns) == 3:
+                return Struct([z3.If(x < y, y, z3.If(x > ns[2], ns[2], x))])
+            if k == 'abs_diff':
+                return Struct([z3.If(x >= y, x - y, y - x)])
+            if k == 'saturating_sub':
+                return Struct([z3.If(x >= y, x - y, z3.IntVal(0))])
+            if k == 'saturating_add':
+                return Struct([z3.If(x + y <= DMAX, x + y, z3.IntVal(DMAX))])
+            if k in ('checked_add', 'checked_sub'):
+                v = x + y if k == 'checked_add' else x - y
+                return Enum(z3.If(z3.And(v >= 0, v <= DMAX), z3.IntVal(1), z3.IntVal(0)), {'Some': Struct([Struct([v])]), 'None': UNIT})
+            if k == 'add':
+                ex.obligations.append(Obligation(z3.And(st.pcond(), x + y > DMAX), 'overflow when adding durations', fn.name))
+                return Struct([x + y])
+            if k == 'sub':
+                ex.obligations.append(Obligation(z3.And(st.pcond(), x < y), 'overflow when subtracting durations', fn.name))
+                return Struct([x - y])
+            if k == 'mul':
+                return Struct([x * y])
+            if k == 'div':
+                ex.obligations.append(Obligation(z3.And(st.pcond(), y == 0), 'division of a duration by zero', fn.name))
+                return Struct([x / y])
     # ---------------------------------------------------------------- memory
     if re.search(r'MaybeUninit::uninit$', c):
         return Struct([None])
@@ -579,6 +664,10 @@ def _struct_eq(a, b):
     return None
 
 
+class _ItemFn:
+    name = '<fn item>'; ltypes = {}; params = []
+
+
 def call_closure(ex, st, callee, closure, cargs):
     """invoke a closure whose body is in the dump; the closure type `{closure@file:l:c: l:c}` is read from the callee's
     generic arguments.  returns (state, value) or None"""
@@ -588,6 +677,11 @@ def call_closure(ex, st, callee, closure, cargs):
         cands = ex.prog.resolve(closure.tag[5:], len(cargs))
         if len(cands) == 1:
             outs = ex.inline(cands[0], list(cargs), st)
+            if len(outs) == 1:
+                return outs[0]
+        elif not cands:
+            # a std function the engine models itself (Duration::from_nanos, ...)
+            outs = ex.call(closure.tag[5:], list(cargs), st, None, _ItemFn)
             if len(outs) == 1:
                 return outs[0]
         return None
@@ -621,9 +715,12 @@ def _call_closure_on(ex, st, fn, v, variant, closure, callee, wrap):
         return NotImplemented
     if is_item:
         cands = ex.prog.resolve(closure.tag[5:], 1)
-        if len(cands) != 1:
+        if len(cands) > 1:
             return NotImplemented
-        outs = ex.inline(cands[0], [v.p[variant].f[0]], st.fork())
+        if cands:
+            outs = ex.inline(cands[0], [v.p[variant].f[0]], st.fork())
+        else:
+            outs = ex.call(closure.tag[5:], [v.p[variant].f[0]], st.fork(), None, fn)
     else:
         loc = m.group(1)
         cands = [f for lst in ex.prog.fns.values() for f in lst if '{closure#' in f.name and f.params and loc in f.ltypes.get(f.params[0], '')]
